@@ -70,6 +70,7 @@ Definition J {A} (cards : list card) (ctx ctx' : list card) (m : M A) : Prop :=
                 at_ctx cards (cs_idx s') ctx' /\ cs_fn s' = cs_fn s /\ cs_ns s' = cs_ns s /\
                 exists new, cs_trace s' = new ++ cs_trace s /\
                             Forall (fun al => entry_ok cards (cs_ns s) (cs_fn s) (snd al)) new
+            | RErr _ l => exists lc, l = Some lc /\ entry_ok cards (cs_ns s) (cs_fn s) lc
             | _ => True
             end.
 
@@ -79,42 +80,57 @@ Proof. intros s H. cbn. repeat split; auto. exists []. split; [reflexivity | con
 Lemma J_bind {A B} cards c0 c1 c2 (m : M A) (f : A -> M B) :
   J cards c0 c1 m -> (forall a, J cards c1 c2 (f a)) -> J cards c0 c2 (bind m f).
 Proof.
-  intros Hm Hf s H. unfold bind. specialize (Hm s H). destruct (m s) as [a s1| | |]; auto.
+  intros Hm Hf s H. unfold bind. specialize (Hm s H). destruct (m s) as [a s1|e l| |]; auto.
   destruct Hm as (H1 & Hfn1 & Hns1 & new1 & Ht1 & Hok1).
-  specialize (Hf a s1 H1). destruct (f a s1) as [b s2| | |]; auto.
-  destruct Hf as (H2 & Hfn2 & Hns2 & new2 & Ht2 & Hok2).
-  repeat split; try congruence. exists (new2 ++ new1). split; [rewrite Ht2, Ht1, app_assoc; reflexivity|].
-  apply Forall_app. split; [|exact Hok1]. rewrite Hns1, Hfn1 in Hok2. exact Hok2.
+  specialize (Hf a s1 H1). destruct (f a s1) as [b s2|e l| |]; auto.
+  - destruct Hf as (H2 & Hfn2 & Hns2 & new2 & Ht2 & Hok2).
+    repeat split; try congruence. exists (new2 ++ new1). split; [rewrite Ht2, Ht1, app_assoc; reflexivity|].
+    apply Forall_app. split; [|exact Hok1]. rewrite Hns1, Hfn1 in Hok2. exact Hok2.
+  - rewrite Hns1, Hfn1 in Hf. exact Hf.
 Qed.
 
 (* operations that leave index, function, namespace and trace alone *)
 Definition same3 (s s' : cstate) : Prop :=
   cs_idx s' = cs_idx s /\ cs_fn s' = cs_fn s /\ cs_ns s' = cs_ns s /\ cs_trace s' = cs_trace s.
 Definition frame3 {A} (m : M A) : Prop :=
-  forall s, match m s with ROk _ s' => same3 s s' | _ => True end.
+  forall s, match m s with
+            | ROk _ s' => same3 s s'
+            | RErr _ l => l = Some (cur_loc s)        (* self.error(..) = with_loc(.., self.trace()) *)
+            | _ => True
+            end.
+Lemma cur_loc_same3 s s' : same3 s s' -> cur_loc s' = cur_loc s.
+Proof. intros (a & b & c & _). unfold cur_loc. rewrite a, b, c. reflexivity. Qed.
+Lemma at_ctx_entry_ok cards ctx s :
+  at_ctx cards (cs_idx s) ctx -> entry_ok cards (cs_ns s) (cs_fn s) (cur_loc s).
+Proof.
+  intros H. unfold entry_ok, cur_loc. cbn [fst snd ci_function ci_indices]. repeat split; auto.
+  destruct (at_ctx_resolves _ _ _ H) as (b & path & c0 & c & Hl & Hn & _ & Hd). eauto 8.
+Qed.
 Ltac same3_tac := unfold same3; cbn; repeat split; reflexivity.
 
 Lemma J_frame {A} cards ctx (m : M A) : frame3 m -> J cards ctx ctx m.
 Proof.
-  intros Hf s H. specialize (Hf s). destruct (m s) as [a s'| | |]; auto.
-  destruct Hf as (a1 & a2 & a3 & a4). rewrite a1. repeat split; auto.
-  exists []. split; [rewrite a4; reflexivity | constructor].
+  intros Hf s H. specialize (Hf s). destruct (m s) as [a s'|e l| |]; auto.
+  - destruct Hf as (a1 & a2 & a3 & a4). rewrite a1. repeat split; auto.
+    exists []. split; [rewrite a4; reflexivity | constructor].
+  - exists (cur_loc s). split; [exact Hf | eapply at_ctx_entry_ok; eauto].
 Qed.
 Lemma frame3_ret {A} (a : A) : frame3 (ret a).
 Proof. intros s. cbn. same3_tac. Qed.
 Lemma frame3_bind {A B} (m : M A) (f : A -> M B) :
   frame3 m -> (forall a, frame3 (f a)) -> frame3 (bind m f).
 Proof.
-  intros Hm Hf s. unfold bind. specialize (Hm s). destruct (m s) as [a s1| | |]; auto.
-  specialize (Hf a s1). destruct (f a s1) as [b s2| | |]; auto.
-  destruct Hm as (a1 & a2 & a3 & a4), Hf as (b1 & b2 & b3 & b4). repeat split; congruence.
+  intros Hm Hf s. unfold bind. specialize (Hm s). destruct (m s) as [a s1|e l| |]; auto.
+  specialize (Hf a s1). destruct (f a s1) as [b s2|e l| |]; auto.
+  - destruct Hm as (a1 & a2 & a3 & a4), Hf as (b1 & b2 & b3 & b4). repeat split; congruence.
+  - rewrite Hf. f_equal. apply cur_loc_same3, Hm.
 Qed.
 Lemma frame3_get : frame3 get. Proof. intros s. cbn. same3_tac. Qed.
 Lemma frame3_get_pc : frame3 get_pc. Proof. intros s. cbn. same3_tac. Qed.
 Lemma frame3_get_pc_i32 : frame3 get_pc_i32. Proof. intros s. cbn. same3_tac. Qed.
 Lemma frame3_panic {A} : frame3 (@panic A). Proof. intros s. exact I. Qed.
 Lemma frame3_diverge {A} : frame3 (@diverge A). Proof. intros s. exact I. Qed.
-Lemma frame3_error {A} e : frame3 (@error A e). Proof. intros s. exact I. Qed.
+Lemma frame3_error {A} e : frame3 (@error A e). Proof. intros s. reflexivity. Qed.
 Lemma frame3_scope_begin : frame3 scope_begin. Proof. intros s. cbn. same3_tac. Qed.
 Lemma frame3_compile_begin : frame3 compile_begin. Proof. intros s. cbn. same3_tac. Qed.
 Lemma frame3_compile_end : frame3 compile_end. Proof. intros s. cbn. same3_tac. Qed.
@@ -123,7 +139,7 @@ Proof. unfold validate_var_name. destruct (is_empty n); [apply frame3_error | ap
 Lemma frame3_add_local_unchecked n : frame3 (add_local_unchecked n).
 Proof.
   intros s. unfold add_local_unchecked.
-  destruct (Nat.leb locals_cap (length (hd [] (cs_locals s)))); cbn; [exact I | same3_tac].
+  destruct (Nat.leb locals_cap (length (hd [] (cs_locals s)))); cbn; [reflexivity | same3_tac].
 Qed.
 Lemma frame3_add_local n : frame3 (add_local n).
 Proof. apply frame3_bind; [apply frame3_validate | intros; apply frame3_add_local_unchecked]. Qed.
@@ -415,7 +431,7 @@ Section Cards.
       intros _. repeat step3.
     - (* CSetGlobalVar *)
       prep3. eapply J_bind; [step3 | intros _]. eapply J_bind; [repeat step3 | intros _].
-      destruct (is_empty n); [intros s _; exact I|]. repeat step3.
+      destruct (is_empty n); [apply J_frame, frame3_error|]. repeat step3.
     - (* CSetVar *)
       prep3. eapply J_bind; [step3 | intros _]. eapply J_bind; [repeat step3 | intros _].
       destruct (rsplit_once_c c_dot n) as [[rp sp]|]; [repeat step3|].
@@ -467,6 +483,34 @@ Section Cards.
       + rewrite Hns2, Hfn2, E1, E2 in Hok2. exact Hok2.
       + rewrite E1, E2 in Hok1. exact Hok1.
   Qed.
+  Lemma process_cards_error : forall rest done s e l,
+    cards = done ++ rest -> forallb repeat_free rest = true ->
+    (cs_idx s = [] \/ exists x, cs_idx s = [x]) ->
+    process_cards rest (N.of_nat (length done)) s = RErr e l ->
+    exists lc, l = Some lc /\ entry_ok cards (cs_ns s) (cs_fn s) lc.
+  Proof.
+    induction rest as [|c r IH]; intros done s e l Hc Hr Hidx H; cbn [process_cards] in H; [discriminate|].
+    cbn [forallb] in Hr. apply andb_true_iff in Hr. destruct Hr as [Hrc Hrr].
+    unfold bind in H. cbn [pop_sub push_sub] in H.
+    set (s1 := set_index (cs_fn (set_index (cs_fn s) (tl (cs_idx s)) s))
+                         (N.of_nat (length done) :: cs_idx (set_index (cs_fn s) (tl (cs_idx s)) s))
+                         (set_index (cs_fn s) (tl (cs_idx s)) s)) in H.
+    assert (Hidx1 : cs_idx s1 = [N.of_nat (length done)]).
+    { subst s1. cbn. destruct Hidx as [->|[x ->]]; reflexivity. }
+    assert (Hat : at_ctx cards (cs_idx s1) [c]).
+    { rewrite Hidx1. constructor. rewrite Nat2N.id, Hc, nth_error_app2, Nat.sub_diag by lia. reflexivity. }
+    pose proof (process_card_ok3 c Hrc [] s1 Hat) as Hp.
+    assert (E1 : cs_fn s1 = cs_fn s) by reflexivity. assert (E2 : cs_ns s1 = cs_ns s) by reflexivity.
+    destruct (process_card c s1) as [[] s2|e1 l1| |]; try discriminate.
+    - destruct Hp as (Hat2 & Hfn2 & Hns2 & _).
+      assert (Hidx2 : exists x, cs_idx s2 = [x]) by (inversion Hat2; subst; eauto).
+      replace (N.of_nat (length done) + 1) with (N.of_nat (length (done ++ [c]))) in H
+        by (rewrite app_length; cbn; lia).
+      destruct (IH (done ++ [c]) s2 e l ltac:(rewrite <- app_assoc; exact Hc) Hrr (or_intror Hidx2) H)
+        as (lc & Hl & Hok).
+      exists lc. split; auto. rewrite Hns2, Hfn2, E1, E2 in Hok. exact Hok.
+    - injection H as <- <-. rewrite E1, E2 in Hp. exact Hp.
+  Qed.
 End Cards.
 
 (* every trace entry recorded while the cards of a function are compiled resolves, through
@@ -489,6 +533,25 @@ Proof.
   destruct Hok as (Hns & Hfn & b & path & c0 & c & Hi & Hb & Hd). split; [exact Hns|].
   intros m name f Hf Hcards. exists c. destruct idx as [fn l]. cbn in Hfn, Hi. subst fn.
   apply (get_card_resolves m (cs_fn s) name f l b path c0 c Hf Hi); [rewrite Hcards; exact Hb | exact Hd].
+Qed.
+
+(* a compilation error raised while the cards of a function are compiled carries a location that
+   resolves to a card of that function *)
+Theorem compile_error_loc (cards : list card) s e l :
+  forallb repeat_free cards = true ->
+  (cs_idx s = [] \/ exists x, cs_idx s = [x]) ->
+  process_cards cards 0 s = RErr e l ->
+  exists ns idx, l = Some (ns, idx) /\ ns = cs_ns s /\
+    forall (m : module) name f,
+      nth_error (m_functions m) (cs_fn s) = Some (name, f) -> f_cards f = cards ->
+      exists c, CardEdit.get_card m idx = CardEdit.ROk c.
+Proof.
+  intros Hr Hidx H.
+  destruct (process_cards_error cards cards [] s e l eq_refl Hr Hidx H) as ([ns idx] & -> & Hok).
+  exists ns, idx. cbn [fst snd] in Hok. destruct Hok as (Hns & Hfn & b & path & c0 & c & Hi & Hb & Hd).
+  split; [reflexivity|]. split; [exact Hns|].
+  intros m name f Hf Hcards. exists c. destruct idx as [fn li]. cbn in Hfn, Hi. subst fn.
+  apply (get_card_resolves m (cs_fn s) name f li b path c0 c Hf Hi); [rewrite Hcards; exact Hb | exact Hd].
 Qed.
 
 (* finding N-C15-1: the count card of Repeat is compiled under [.., 0, 0]; get_child(Repeat, 0) is
